@@ -1,11 +1,11 @@
 /-
   C17 — testscript honours its deadline: blocked commands are stopped and reported.
 
-  Property theorems about the model `GIV.Model.TsLife` §1 (RunT's grace arithmetic), §6 (waitOrStop
+  Property theorems about the model `GIV.Model.TsLifeDl` §1 (RunT's grace arithmetic), §6 (waitOrStop
   as a transition system of waiter, stopper goroutine, process and abstract clock) and §7 (cmdExec's
   error attribution).  Proofs are in `GIV/Lemmas/TsLifeGrace.lean`, `TsLifeWos.lean`,
   `TsLifeWosMain.lean`, where the regenerated facts are class hypotheses; every theorem below
-  discharges the facts it needs from `GIV.Gen.TsLife` by `rfl`, so a changed number, comparison,
+  discharges the facts it needs from `GIV.Gen.TsLifeDl` by `rfl`, so a changed number, comparison,
   guard or message in /repo/testscript breaks exactly the theorems that depend on it.
 
   PARTIAL by nature: what is proved is the logic (arithmetic, every interleaving of the three
@@ -64,7 +64,7 @@ example : grace 2000000000 = 100000000 ∧ grace 60000000000 = 3000000000 := by 
 (`killDelay > 0`); a background command gets −1, which does not. -/
 theorem foreground_escalates : ∀ timeout : Int,
     fgKillDelay timeout = grace timeout ∧ killArmed (fgKillDelay timeout) = true ∧
-    killArmed Gen.TsLife.bgKillDelay = false := by
+    killArmed Gen.TsLifeDl.bgKillDelay = false := by
   intro t
   have := grace_ge t
   refine ⟨rfl, ?_, by decide⟩
